@@ -1530,6 +1530,7 @@ func verifPartitionSMF(m Message) (n int) {
 
 //@ macro msgsOK(t) = forall j int :: (0 <= j && j < len(t)) ==> (len(t[j].Message) >= 1 && len(t[j].Message) < 65536)
 //@ macro isEOT(m) = len(m) == 3 && m[0] == 0xFF && m[1] == 0x2F && m[2] == 0x00
+//@ macro nonEmptyT(t) = forall j int :: (0 <= j && j < len(t)) ==> len(t[j].Message) >= 1
 
 //@ func (Track).IsClosed
 //@ ensures [P:C01] result == (len(t) > 0 && isEOT(t[len(t)-1].Message))
@@ -1544,6 +1545,7 @@ func verifPartitionSMF(m Message) (n int) {
 //@ ensures [P:C01] !old(len(*t) > 0 && isEOT((*t)[len(*t)-1].Message)) ==> (fresh(*t) && len(*t) == old(len(*t)) + 1 && (*t)[len(*t)-1].Delta == deltaticks && forall i int :: 0 <= i && i < old(len(*t)) ==> (*t)[i] == old((*t)[i]))
 //@ ensures [P:C01] old(wfTrack(*t)) ==> wfTrack(*t)
 //@ ensures [H] old(msgsOK(*t)) ==> msgsOK(*t)
+//@ ensures [H] old(nonEmptyT(*t)) ==> nonEmptyT(*t)
 
 // Add appends the messages (the first with the given delta, the others with delta 0) unless the track is closed
 //@ func (*Track).Add
@@ -1554,12 +1556,14 @@ func verifPartitionSMF(m Message) (n int) {
 //@ ensures [P:C01] !old(len(*t) > 0 && isEOT((*t)[len(*t)-1].Message)) ==> (len(*t) == old(len(*t)) + len(msgs) && forall i int :: 0 <= i && i < old(len(*t)) ==> (*t)[i] == old((*t)[i]))
 //@ ensures [P:C01] !old(len(*t) > 0 && isEOT((*t)[len(*t)-1].Message)) ==> forall k int :: 0 <= k && k < len(msgs) ==> ((*t)[old(len(*t)) + k].Message == msgs[k] && (*t)[old(len(*t)) + k].Delta == (k == 0 ? deltaticks : 0))
 //@ ensures [P:C01] old(wfTrack(*t)) ==> wfTrack(*t)
+//@ ensures [P:C05] (old(nonEmptyT(*t)) && forall k int :: 0 <= k && k < len(msgs) ==> len(msgs[k]) >= 1) ==> nonEmptyT(*t)
 //@ loop 0 invariant -1 <= rangeindex && rangeindex < len(msgs)
 //@ loop 0 invariant !old(len(*t) > 0 && isEOT((*t)[len(*t)-1].Message))
 //@ loop 0 invariant len(*t) == old(len(*t)) + rangeindex + 1
 //@ loop 0 invariant forall i int :: 0 <= i && i < old(len(*t)) ==> (*t)[i] == old((*t)[i])
 //@ loop 0 invariant forall k int :: 0 <= k && k <= rangeindex ==> ((*t)[old(len(*t)) + k].Message == msgs[k] && (*t)[old(len(*t)) + k].Delta == (k == 0 ? old(deltaticks) : 0))
 //@ loop 0 invariant deltaticks == (rangeindex + 1 == 0 ? old(deltaticks) : 0)
+//@ loop 0 invariant (old(nonEmptyT(*t)) && forall k int :: 0 <= k && k < len(msgs) ==> len(msgs[k]) >= 1) ==> nonEmptyT(*t)
 //@ loop 0 invariant old(wfTrack(*t)) ==> forall i int :: 0 <= i && i < len(*t) - (rangeindex + 1 == len(msgs) ? 1 : 0) ==> !isEOT((*t)[i].Message)
 //@ loop 0 invariant forall k int :: 0 <= k && k < len(msgs) - 1 ==> !isEOT(msgs[k])
 //@ loop 0 decreases len(msgs) - rangeindex
